@@ -8,6 +8,8 @@ import (
 	"bytes"
 	"encoding/hex"
 	"fmt"
+	"os"
+	"path/filepath"
 	"sort"
 	"strings"
 
@@ -521,12 +523,13 @@ func labelOfBytes(x string) rh.Label { return rh.Label{Pkg: "p", Name: x} }
 
 // the attributes of C08's statement, each with a mutation of the recipe
 type attr struct {
-	name   string
-	mutate func(r *lib.Rng, sp *rh.Spec)
+	name    string
+	mutate  func(r *lib.Rng, sp *rh.Spec)
+	prepare func(r *lib.Rng, sp *rh.Spec) // optional: applied to the base recipe before it is cloned
 }
 
 var attrs = []attr{
-	{"command", func(r *lib.Rng, sp *rh.Spec) {
+	{name: "command", mutate: func(r *lib.Rng, sp *rh.Spec) {
 		if sp.HasCommands {
 			if len(sp.Commands) == 0 || r.Chance(1, 4) {
 				sp.Commands = append(sp.Commands, rh.KV{K: lib.Pick(r, cfgs) + "x", V: word(r, false)})
@@ -537,17 +540,19 @@ var attrs = []attr{
 			sp.Command = mutStr(r, sp.Command)
 		}
 	}},
-	{"srcs", func(r *lib.Rng, sp *rh.Spec) {
+	{name: "srcs", mutate: func(r *lib.Rng, sp *rh.Spec) {
 		// keep label sources, mutate the file names
 		sp.Srcs = fileInputs(mutList(r, inputFiles(sp.Srcs), false))
 	}},
-	{"named_srcs", func(r *lib.Rng, sp *rh.Spec) {
+	{name: "named_srcs", mutate: func(r *lib.Rng, sp *rh.Spec) {
 		sp.NamedSrcs = toIGroups(mutGroups(r, fromIGroups(sp.NamedSrcs), false))
 	}},
-	{"outs", func(r *lib.Rng, sp *rh.Spec) { sp.Outs = mutList(r, sp.Outs, true) }},
-	{"named_outs", func(r *lib.Rng, sp *rh.Spec) { sp.NamedOuts = mutGroups(r, sp.NamedOuts, true) }},
-	{"optional_outs", func(r *lib.Rng, sp *rh.Spec) { sp.OptionalOuts = mutList(r, sp.OptionalOuts, true) }},
-	{"deps", func(r *lib.Rng, sp *rh.Spec) {
+	// srcs changes that keep the SET of depended-on targets: order of label sources, |annotation, a label that already is a dependency (store.go)
+	{name: "srcs_labels", mutate: mutateSrcLabels, prepare: prepareSrcLabels},
+	{name: "outs", mutate: func(r *lib.Rng, sp *rh.Spec) { sp.Outs = mutList(r, sp.Outs, true) }},
+	{name: "named_outs", mutate: func(r *lib.Rng, sp *rh.Spec) { sp.NamedOuts = mutGroups(r, sp.NamedOuts, true) }},
+	{name: "optional_outs", mutate: func(r *lib.Rng, sp *rh.Spec) { sp.OptionalOuts = mutList(r, sp.OptionalOuts, true) }},
+	{name: "deps", mutate: func(r *lib.Rng, sp *rh.Spec) {
 		switch r.Intn(4) {
 		case 0: // two dependencies whose strings concatenate to the string of one
 			sp.Deps = append(sp.Deps, rh.Label{Pkg: "z", Name: "a//z:b"})
@@ -563,7 +568,7 @@ var attrs = []attr{
 			sp.Deps = append(sp.Deps, rh.Label{Pkg: lib.Pick(r, pkgs), Name: lib.Pick(r, names) + "_d"})
 		}
 	}},
-	{"tools", func(r *lib.Rng, sp *rh.Spec) {
+	{name: "tools", mutate: func(r *lib.Rng, sp *rh.Spec) {
 		switch r.Intn(5) {
 		case 0:
 			sp.Tools = append(sp.Tools, rh.Input{Kind: "sys", File: "/usr/bin/" + word(r, true)})
@@ -586,8 +591,8 @@ var attrs = []attr{
 			sp.Tools = append(sp.Tools, rh.Input{Kind: "path", File: word(r, true)})
 		}
 	}},
-	{"env", func(r *lib.Rng, sp *rh.Spec) { sp.Env = mutMap(r, sp.Env) }},
-	{"pass_env", func(r *lib.Rng, sp *rh.Spec) {
+	{name: "env", mutate: func(r *lib.Rng, sp *rh.Spec) { sp.Env = mutMap(r, sp.Env) }},
+	{name: "pass_env", mutate: func(r *lib.Rng, sp *rh.Spec) {
 		// change the VALUES of passed variables
 		sp.HasPassEnv = true
 		if len(sp.PassEnv) == 0 {
@@ -615,16 +620,16 @@ var attrs = []attr{
 			sp.Environ = append(out, rh.KV{K: n, V: word(r, false) + "q"})
 		}
 	}},
-	{"labels", func(r *lib.Rng, sp *rh.Spec) { sp.Labels = mutList(r, sp.Labels, false) }},
-	{"secrets", func(r *lib.Rng, sp *rh.Spec) { sp.Secrets = mutList(r, sp.Secrets, false) }},
-	{"named_secrets", func(r *lib.Rng, sp *rh.Spec) { sp.NamedSecrets = mutGroups(r, sp.NamedSecrets, false) }},
-	{"binary", func(r *lib.Rng, sp *rh.Spec) { sp.Binary = !sp.Binary }},
-	{"sandbox", func(r *lib.Rng, sp *rh.Spec) { sp.Sandbox = !sp.Sandbox }},
-	{"output_dirs", func(r *lib.Rng, sp *rh.Spec) { sp.OutputDirs = mutList(r, sp.OutputDirs, false) }},
-	{"entry_points", func(r *lib.Rng, sp *rh.Spec) { sp.EntryPoints = mutMap(r, sp.EntryPoints) }},
-	{"file_content", func(r *lib.Rng, sp *rh.Spec) { sp.FileContent = mutStr(r, sp.FileContent) }},
-	{"requires", func(r *lib.Rng, sp *rh.Spec) { sp.Requires = mutList(r, sp.Requires, false) }},
-	{"provides", func(r *lib.Rng, sp *rh.Spec) {
+	{name: "labels", mutate: func(r *lib.Rng, sp *rh.Spec) { sp.Labels = mutList(r, sp.Labels, false) }},
+	{name: "secrets", mutate: func(r *lib.Rng, sp *rh.Spec) { sp.Secrets = mutList(r, sp.Secrets, false) }},
+	{name: "named_secrets", mutate: func(r *lib.Rng, sp *rh.Spec) { sp.NamedSecrets = mutGroups(r, sp.NamedSecrets, false) }},
+	{name: "binary", mutate: func(r *lib.Rng, sp *rh.Spec) { sp.Binary = !sp.Binary }},
+	{name: "sandbox", mutate: func(r *lib.Rng, sp *rh.Spec) { sp.Sandbox = !sp.Sandbox }},
+	{name: "output_dirs", mutate: func(r *lib.Rng, sp *rh.Spec) { sp.OutputDirs = mutList(r, sp.OutputDirs, false) }},
+	{name: "entry_points", mutate: func(r *lib.Rng, sp *rh.Spec) { sp.EntryPoints = mutMap(r, sp.EntryPoints) }},
+	{name: "file_content", mutate: func(r *lib.Rng, sp *rh.Spec) { sp.FileContent = mutStr(r, sp.FileContent) }},
+	{name: "requires", mutate: func(r *lib.Rng, sp *rh.Spec) { sp.Requires = mutList(r, sp.Requires, false) }},
+	{name: "provides", mutate: func(r *lib.Rng, sp *rh.Spec) {
 		gs := []rh.Group{}
 		for _, g := range sp.Provides {
 			x := rh.Group{Key: g.Key}
@@ -748,7 +753,7 @@ func explain(name string, a, b *rh.T) string {
 		return ""
 	}
 	switch name {
-	case "srcs", "named_srcs":
+	case "srcs", "named_srcs", "srcs_labels":
 		ta := append(clone(a.Srcs), groupToks(a.NamedSrcs, false)...)
 		tb := append(clone(b.Srcs), groupToks(b.NamedSrcs, false)...)
 		if !eqStrs(depToks(a.Deps), depToks(b.Deps)) {
@@ -907,11 +912,14 @@ type pairJS struct {
 	Steps  []step   `json:"steps,omitempty"`
 	MutsA  []rh.Mut `json:"muts_a,omitempty"`
 	MutsB  []rh.Mut `json:"muts_b,omitempty"`
+	// store histories (store.go)
+	StoreDefs  []*rh.Spec  `json:"store_defs,omitempty"`
+	StoreSteps []storeStep `json:"store_steps,omitempty"`
 }
 
 func main() {
 	lib.Main("C08", func(c *lib.Ctx) {
-		c.Model("From PlzV Require Import Model.C08 Model.C08_Cache Model.C08_CacheTie.", "C08_CacheTie.case", "C08_CacheTie.check")
+		c.Model("From PlzV Require Import Model.C08 Model.C08_Cache Model.C08_CacheTie Model.C08_Store Model.C08_Srcs Model.C08_StoreTie.", "C08_StoreTie.case", "C08_StoreTie.check")
 		c.Rule("tie: random recipes (every attribute present with probability 1/2 or 7/8, 0-3 entries per list/map drawn from 26 adversarial " +
 			"words: shared prefixes/suffixes, embedded '=', empty, \\x01/\\x02) performed on fresh core.BuildTarget values through the adders and public " +
 			"fields; real build.RuleHash(state,t,runtime,false) must equal sha1 of the stream the Go interpreter of the regenerated emit program " +
@@ -924,11 +932,26 @@ func main() {
 			"and the Coq state machine (Model/C08_Cache.v, wrapper regenerated from RuleHash) must return the same stream; oracle: along histories the build can " +
 			"produce, a post-build / runtime call (and any call on a target the build cannot modify) returns the hash of the CURRENT attributes (the unexported " +
 			"ruleHash itself through the hook src/build/verif_c08.go, and RuleHash on a fresh object built from the current recipe); two copies of one target whose builds change the same attribute " +
-			"differently get different post-build hashes unless the pair falls in a listed unframed class")
+			"differently get different post-build hashes unless the pair falls in a listed unframed class. srcs_labels pairs: srcs changes that keep the set of depended-on targets " +
+			"(two label sources swapped, a label source moved to the other end, only the |annotation changed, a label that already is a dependency added to srcs). sources as inputs: for a third of the " +
+			"tie targets the real Sources / NamedSources by kind (file, label, annotated label, system file) with the same stream, against ser_srcs with the regenerated loop guards. " +
+			"store histories: 2-4 definitions of ONE target (edits of a first one: outputs dropped / added, command or labels changed, or unrelated) are built 3-7 times against ONE real " +
+			"output directory (reverts to the definition built before the last one with probability 1/3, forced rebuilds, deleted files; the first history is v1 outs [a,b] / v2 outs [a] / v1): every step is a " +
+			"fresh target, the REAL needsBuilding, then (if it says so) fresh output files, the real StoreTargetMetadata and the real writeRuleHash (real xattrs); the answers of needsBuilding and the " +
+			"records found on every file at the end (located among sha1(stream) of the definitions) must equal the run of Model/C08_Store.v with the regenerated reader loop; oracle: needsBuilding answers " +
+			"'unchanged' only if every output on disk was written by the build of a definition with the same real rule hash")
 		prog := rh.LoadProg()
 
 		var replay pairJS
 		isReplay := c.ReadReplay(&replay)
+		if isReplay && replay.StoreDefs != nil {
+			c.Eval(replay, "replay", true)
+			dir := storeDir(c, 0)
+			res := runStore(prog, dir, replay.StoreDefs, replay.StoreSteps)
+			os.RemoveAll(filepath.Join(c.Out, "store"))
+			checkStore(c, replay.StoreDefs, replay.StoreSteps, res)
+			return
+		}
 		if isReplay && replay.Recipe != nil {
 			c.Eval(replay, "replay", true)
 			if replay.Steps != nil {
@@ -963,7 +986,9 @@ func main() {
 			r := c.Rng.Fork()
 			sp := genSpec(r, lib.Pick(r, []int{4, 4, 7}))
 			rt := r.Chance(1, 3)
-			real, t := rh.Hash(sp, rt)
+			lv := rh.Construct(sp)
+			t := lv.ReadBack()
+			real := lv.RuleHash(rt, false)
 			stream := rh.Stream(prog, rt, t)
 			js := map[string]any{"runtime": rt, "recipe": sp, "stored": t, "rule_hash": hex.EncodeToString(real)}
 			if !bytes.Equal(rh.Sha1(stream), real) {
@@ -973,7 +998,17 @@ func main() {
 				js["tie"] = "sha1(interpreted stream) != build.RuleHash"
 				stream = []byte("TIE BROKEN: sha1(interpreted stream) != build.RuleHash " + hex.EncodeToString(real))
 			}
-			c.Case(lib.App("CRule", lib.App("CStream", lib.Bool(rt), t.Coq(), rh.Str(string(stream)))), js, t.Coq()+fmt.Sprint(rt), nontrivial(t))
+			c.Case(lib.App("SOld", lib.App("CRule", lib.App("CStream", lib.Bool(rt), t.Coq(), rh.Str(string(stream))))), js, t.Coq()+fmt.Sprint(rt), nontrivial(t))
+			if i%3 == 0 { // the same target with its sources given by kind
+				nlab := 0
+				for _, s := range lv.T.AllSources() {
+					if _, ok := s.Label(); ok {
+						nlab++
+					}
+				}
+				c.Case(srcsCoq(lv, t, rt, stream), js, "srcs|"+t.Coq()+fmt.Sprint(rt), nlab >= 1 && len(t.Srcs)+len(t.NamedSrcs) >= 2)
+				c.HistN("srcs_label_inputs", nlab)
+			}
 			c.HistN("stream_len/32", len(stream)/32)
 			c.Hist("runtime", fmt.Sprint(rt))
 		}
@@ -1008,6 +1043,9 @@ func main() {
 			r := c.Rng.Fork()
 			at := attrs[i%len(attrs)]
 			a := genSpec(r, lib.Pick(r, []int{2, 4, 7}))
+			if at.prepare != nil {
+				at.prepare(r, a)
+			}
 			// make sure the attribute is populated in the base recipe half of the time
 			b := a.Clone()
 			at.mutate(r, b)
@@ -1046,5 +1084,8 @@ func main() {
 
 		// ---- 4. histories on one target: RuleHash's memo against changes made by the build
 		histories(c, prog)
+
+		// ---- 5. the stored rule hash: histories of builds of several definitions against one output directory
+		stores(c, prog)
 	})
 }
